@@ -151,6 +151,8 @@ impl<'a, R: BufRead> GenLog2DltMsgIterator<'a, R> {
         if tag.is_empty() {
             return None;
         }
+        // the description needs to fit into a DLT msg (u16 len). So we limit it:
+        let tag = &tag.as_bytes()[..std::cmp::min(tag.len(), u16::MAX as usize - 256)];
 
         let mut payload: Vec<u8> = SERVICE_ID_GET_LOG_INFO.to_ne_bytes().into();
         let apid_buf = apid.as_buf();
@@ -161,7 +163,7 @@ impl<'a, R: BufRead> GenLog2DltMsgIterator<'a, R> {
                 .chain(apid_buf.iter().copied())
                 .chain(0u16.to_ne_bytes()) // 0 ctx ids
                 .chain((tag.len() as u16).to_ne_bytes()) // len of apid desc
-                .chain(tag.as_bytes().iter().copied()),
+                .chain(tag.iter().copied()),
         );
         // return a DltMessage with the LOG INFO APID incl. the BusMapping name
         let index = self.index;
